@@ -368,6 +368,80 @@ def o2_scope(chk, prog, shape, listed='ab'):
     chk.end(ob)
 
 
+@expectation('c19_resolution')
+def c19_resolution():
+    """Native: ConnectionPool::from_config on a configuration whose general [plugins] block has table_access DISABLED and whose pool block has it
+    ENABLED for t1 (and a second pool without a block of its own): which block does each pool enforce?"""
+    def f(res):
+        for r in res:
+            if 'error' in r or 'panic' in r:
+                return False, 'native: %r' % (r,)
+            if not r.get('own_block_enforced') or not r.get('general_block_inherited'):
+                return True, 'native: the pool with its own [pools.x.plugins] block enforces it: %r; the pool without one inherits the general block: %r' % (
+                    r.get('own_block_enforced'), r.get('general_block_inherited'))
+        return False, 'native: %r' % (res,)
+    return f
+
+
+def o3_resolution(chk, prog):
+    """Which [plugins] block a pool enforces: its own when it has one, the general one otherwise (ConnectionPool::from_config from MIR)."""
+    from checks import fromconfig as FC
+    from harness.server_state import rstring
+    ob = chk.begin('O3-plugin-resolution', 'ConnectionPool::from_config (real coroutine) on a configuration whose general [plugins] block and whose pool-level block differ '
+                   '(table_access over different tables); the pool has a block of its own or not (solver\'s choice): the plugins the pool enforces (PoolSettings.plugins, '
+                   'what Client::handle consults) are the pool\'s own block when it has one and the general block otherwise', {})
+    ip = chk.interp(prog, 'O3-plugin-resolution')
+    from harness.server_state import install_stats_noops
+    install_stats_noops(ip)
+
+    def harness(ip_):
+        pnames = prog.src.structs['Plugins']
+
+        def mk_plugins(table, enabled):
+            ta = Agg([BV(1, int(enabled)), Seq([rstring(table)], 'vec')], 'TableAccess', ['enabled', 'tables'])
+            vals = {n: none(ip_) for n in pnames}
+            vals['table_access'] = some(ip_, ta)
+            return Agg([vals[n] for n in pnames], 'Plugins', list(pnames))
+        cfg = FC.base_config(ip_, prog)
+        setf(prog, cfg, 'Config', 'plugins', some(ip_, mk_plugins('general_t', False)))
+        own = ip_.choose(2, 'pool_has_own_block') == 1
+        pool = FC.mk_pool_cfg(ip_, prog, [('0', [FC.mk_srvcfg(ip_, prog, rstring('h'), BV(16, 5432), BV(64, 1))], None)])
+        setf(prog, pool, 'Pool', 'plugins', some(ip_, mk_plugins('own_t', True)) if own else none(ip_))
+        pm = MapV('hashmap')
+        pm.entries.append([rstring('db'), Cell(pool, 'pool')])
+        setf(prog, cfg, 'Config', 'pools', pm)
+        FC.install(ip_, cfg)
+        try:
+            FC.run_from_config(ip_, prog)
+        except Panic as p:
+            raise Inconclusive('from_config panic: ' + p.msg)
+        ob.nontrivial += 1
+        ents = {(d, u): c for d, u, c in FC.pool_entries(ip_, prog)}
+        cp = ents.get(('db', 'u'))
+        if cp is None:
+            raise Inconclusive('the configured pool is not registered')
+        ps = deref(ip_, getf(prog, cp, 'ConnectionPool', 'settings'))
+        pl = getf(prog, ps, 'PoolSettings', 'plugins')
+        got = None
+        if variant(ip_, pl, 'Option') == 'Some':
+            ta = getf(prog, payload(pl, 'Some')[0], 'Plugins', 'table_access')
+            if variant(ip_, ta, 'Option') == 'Some':
+                tav = payload(ta, 'Some')[0]
+                tables = tav.fields[1]
+                got = (bytes(b.v for b in items(ip_, tables.items[0])).decode() if tables.items else None, bool(tav.fields[0].v))
+        want = ('own_t', True) if own else ('general_t', False)
+        if got != want:
+            chk.report(ob, 'C19/O3/wrong-plugin-block', 'a pool %s enforces %s: %s' % (
+                'with a [pools.db.plugins] block of its own (table_access enabled for own_t)' if own else 'without a plugins block of its own',
+                'table_access%r' % (got,) if got else 'no table_access at all', 'statements on its listed tables are forwarded' if own else 'the general block is not applied'),
+                {'own_block': own}, {'commands': [{'op': 'plugin_resolution'}], 'expect': ['c19_resolution']})
+        if len(ob.samples) < 2:
+            ob.samples.append({'own_block': own, 'enforced': list(got) if got else None})
+    ip.explore(harness)
+    chk.absorb(ob, ip)
+    chk.end(ob)
+
+
 def _dispatch(chk, f, args):
     f(chk, *args)
 
@@ -381,6 +455,8 @@ def main(chk):
         'statement shapes with common table expressions (reference to a CTE, a CTE\'s own definition, sibling CTEs, DML target, nested subquery, '
         'qualified name), every identifier symbolic: whenever PostgreSQL would read the listed TABLE at some position the verdict must be Deny. '
         '(H) enforcement in Client::handle. Counterexamples are rendered to SQL and replayed through the real parser + traversal + plugin.')
+    chk.explanation += (' (O3-plugin-resolution) ConnectionPool::from_config on a configuration whose general [plugins] block and pool-level block differ: the pool enforces '
+                        'its own block when it has one, the general one otherwise.')
     chk.assumptions += [
         "sqlparser's Display for ObjectName/Ident as modelled in checks/c19.py (parts joined by '.', quoted identifiers written with their quotes)",
         'sqlparser traversal contract as modelled in checks/c19.py: ast::Query is visited as pre_visit_query, the WITH list in order (each definition a nested Query), '
@@ -399,6 +475,10 @@ def main(chk):
     for shape in SHAPES:
         tasks.append((o2_scope, (prog, shape)))
     chk.parallel(_dispatch, tasks)
+    try:
+        o3_resolution(chk, chk.program('on'))
+    except Inconclusive as e:
+        chk.note_inconclusive('O3-plugin-resolution: %s' % e)
 
     hobl.handle_obligations(chk, chk.program('on'), {'C19'}, ['plugins'])
 
